@@ -4,6 +4,7 @@
 
 mod core;
 mod gen;
+mod hookcheck;
 #[cfg(feature = "std-easy")]
 mod io;
 mod json;
@@ -253,6 +254,9 @@ fn replay_cmd(path: &str) -> i32 {
             return 2;
         }
     };
+    if doc.get("no_ff").and_then(|x| x.bool_()).unwrap_or(false) {
+        gen::NO_FF.store(true, std::sync::atomic::Ordering::Relaxed);
+    }
     let tag = doc.gs("scenario").unwrap_or("").to_string();
     let r = match tag.as_str() {
         "c03" => scn::replay(&C03Scn, &doc),
@@ -286,6 +290,9 @@ fn main() {
         std::panic::set_hook(Box::new(|_| {}));
     }
     let args: Vec<String> = std::env::args().collect();
+    if args.iter().any(|a| a == "--no-ff") {
+        gen::NO_FF.store(true, std::sync::atomic::Ordering::Relaxed);
+    }
     if let Err(e) = words::verify() {
         eprintln!("trigger word table invalid: {}", e);
         std::process::exit(2);
@@ -321,6 +328,17 @@ fn main() {
             Some(p) => replay_cmd(p),
             None => 2,
         },
+        Some("hookcheck") => {
+            let seed: u64 = arg(&args, "--seed").and_then(|s| s.parse().ok()).unwrap_or(1);
+            let cases: u64 = arg(&args, "--cases").and_then(|s| s.parse().ok()).unwrap_or(400);
+            let (ok, rep) = hookcheck::run(seed, cases);
+            println!("{}", rep.to_string());
+            if ok {
+                0
+            } else {
+                1
+            }
+        }
         Some("features") => {
             println!("{}", features().join(","));
             0
